@@ -7,25 +7,31 @@ pub(crate) enum InfixFilter {
     #[cfg(test)]
     StartsWth(String),
     Equls(String),
+    // like Equls, but for finding also the files with a restart extension
+    EqulsOrRestart(String),
     None,
 }
 impl InfixFilter {
+    // only files with timestamp infix can have a restart extension
+    pub(crate) fn allows_restart_extension(&self) -> bool {
+        matches!(
+            self,
+            InfixFilter::Timstmps(_) | InfixFilter::EqulsOrRestart(_)
+        )
+    }
+
     pub(crate) fn filter_infix(&self, infix: &str) -> bool {
         match self {
             InfixFilter::Timstmps(infix_format) => {
                 timestamp_from_ts_infix(infix, infix_format).is_ok()
             }
-            InfixFilter::Numbrs => {
-                if infix.len() > 2 {
-                    let mut chars = infix.chars();
-                    chars.next().unwrap() == 'r' && chars.next().unwrap().is_ascii_digit()
-                } else {
-                    false
-                }
-            }
+            // r, followed by at least five digits
+            InfixFilter::Numbrs => infix.strip_prefix('r').is_some_and(|number| {
+                number.len() >= 5 && number.chars().all(|c| c.is_ascii_digit())
+            }),
             #[cfg(test)]
             InfixFilter::StartsWth(s) => infix.starts_with(s),
-            InfixFilter::Equls(s) => infix.eq(s),
+            InfixFilter::Equls(s) | InfixFilter::EqulsOrRestart(s) => infix.eq(s),
             InfixFilter::None => false,
         }
     }
